@@ -4,7 +4,7 @@
    "bounded number of the request's own steps, each of them enabled". Version V1 is the code after the
    fix "broker requests could block forever around the proxy and client timeouts"; V0 is the pinned code. *)
 From Coq Require Import List NArith ZArith Bool Arith.
-From Snow Require Import Model.Broker Proofs.BrokerProofs Proofs.BrokerSteps Proofs.BrokerThms.
+From Snow Require Import Model.Broker Proofs.BrokerProofs Proofs.BrokerSteps Proofs.BrokerThms Proofs.BrokerBounds.
 Import ListNotations.
 Open Scope N_scope.
 
@@ -15,8 +15,9 @@ Theorem C04_progress : forall br s p e,
   exists l, internal l = true /\ target l = Some p /\ step V1 s l <> None.
 Proof. exact progress_v1. Qed.
 
-(* Boundedness: every step of the broker's own threads consumes budget; a run without new arrivals has
-   at most [budget s] steps (at most 9 per registered poll plus one per pending answer request). *)
+(* Boundedness of the whole system when arrivals stop: every step of the broker's own threads consumes budget; a run
+   without new arrivals has at most [budget s] steps (at most 9 per registered poll plus one per pending answer
+   request). (The per-request bounds that hold WITH arrivals follow below.) *)
 Theorem C04_step_consumes_budget : forall s l s',
   internal l = true -> step V1 s l = Some s' -> (budget s' < budget s)%nat.
 Proof. exact internal_step_decreases. Qed.
@@ -25,6 +26,76 @@ Theorem C04_bounded_completion : forall br ls s s',
   reachable V1 br s -> forallb internal ls = true -> run V1 s ls = Some s' ->
   (length ls + budget s' <= budget s)%nat.
 Proof. exact bounded_completion. Qed.
+
+(* ---- per request, under continued arrivals ("at any level of concurrency"). The run [ls] below is ARBITRARY: new
+   proxy polls, client polls, answers and bridge-list installations may arrive at any point, other requests may take
+   any number of steps. [count_own lab p ls] counts the steps of ls that belong to the request itself: [w_label] the
+   steps of poll p's handler and waiter (timer fires, select commits to the timer, timeout critical section, receive
+   the offer, forward it), [c_label] those of the client held by entry p (hand the offer over, timer fires, select
+   commits, take the answer, cleanup), [a_label] the sends of the answer handlers queued on entry p.
+   [pm s p] / [cmm s p] = own steps the poll / the client of entry p still has to take (5 / 4 when not yet arrived). ---- *)
+
+(* a proxy poll takes at most 5 steps of its own before its handler has returned its response ... *)
+Theorem C04_per_request_step_bound : forall br ls s s' p,
+  reachable V1 br s -> run V1 s ls = Some s' ->
+  (count_own w_label p ls + pm s' p <= pm s p)%nat /\ (pm s p <= 5)%nat.
+Proof. exact poll_step_bound. Qed.
+
+Theorem C04_poll_done_iff : forall s p e, nth_error (entries s) p = Some e -> e_w e <> W_Stuck ->
+  (pm s p = 0%nat <-> exists r, e_w e = W_Done r).
+Proof. exact poll_done_iff. Qed.
+
+(* ... a client poll at most 4 ... *)
+Theorem C04_per_client_step_bound : forall br ls s s' p,
+  reachable V1 br s -> run V1 s ls = Some s' ->
+  (count_own c_label p ls + cmm s' p <= cmm s p)%nat /\ (cmm s p <= 4)%nat.
+Proof. exact client_step_bound. Qed.
+
+Theorem C04_client_done_iff : forall s p e c, nth_error (entries s) p = Some e -> e_cl e = Some c ->
+  (cmm s p = 0%nat <-> exists r, c_pc c = C_Done r).
+Proof. exact client_done_iff. Qed.
+
+(* ... and an answer request whose session id resolved to entry p, k-th in the queue of sends on that entry, is still
+   queued at place k - n after n <= k of those sends, whatever else happens: its own (never blocking) send is the
+   (k+1)-th; a send completes the request at the head. (k = number of answer requests for the same poll that were
+   looked up before it and have not completed: 0 unless a proxy posts several answers at once.) *)
+Theorem C04_per_answer_step_bound : forall ls s s' p k x,
+  run V1 s ls = Some s' -> nth_error (senders_at s p) k = Some x -> (count_own a_label p ls <= k)%nat ->
+  nth_error (senders_at s' p) (k - count_own a_label p ls) = Some x.
+Proof. exact answer_step_bound. Qed.
+
+Theorem C04_answer_served_by_send : forall s p s', step V1 s (L_AnswerPut p) = Some s' ->
+  exists e aid a rest ok, nth_error (entries s) p = Some e /\ e_senders e = (aid, a) :: rest /\
+    done_answers s' = (aid, e_sid e, a, ok) :: done_answers s /\ senders_at s' p = rest.
+Proof. exact answer_served_by_send. Qed.
+
+(* No request can be blocked by what others hold: in every reachable state (1) a poll whose handler has not returned
+   has an enabled step of its own; (2) a client poll that has not returned has an enabled step of its own, or waits
+   only for the waiter of its poll to leave the timeout critical section - that step is enabled, and it enables the
+   hand-over of the offer; (3) the head of the queued answer sends is enabled (the others wait only for it). Timer
+   steps count as enabled: a Go timer fires at the latest 10 s after it was armed. *)
+Theorem C04_no_request_blocked : forall br s p e,
+  reachable V1 br s -> nth_error (entries s) p = Some e ->
+  ((forall r, e_w e <> W_Done r) -> exists l, w_label l = Some p /\ step V1 s l <> None) /\
+  (forall c, e_cl e = Some c -> (forall r, c_pc c <> C_Done r) ->
+     (exists l, c_label l = Some p /\ step V1 s l <> None) \/
+     (c_pc c = C_Send /\ e_w e = W_TimedOut /\
+      exists s1, step V1 s (L_WTimeoutCS p) = Some s1 /\ step V1 s1 (L_RvOffer p) <> None)) /\
+  (e_senders e <> [] -> step V1 s (L_AnswerPut p) <> None).
+Proof. exact no_request_blocked. Qed.
+
+(* non-vacuity: poll 0 and its client complete in 5 resp. 3 (at most 4: the answer came before the timer) own steps while two more polls, another client, an
+   answer and a re-installation of the bridge list arrive in between; the state (2) of C04_no_request_blocked (client
+   popped the entry between the waiter's select and its critical section) occurs on the way. *)
+Example C04_per_request_example :
+  let ls := [L_FireW 0; L_Poll 2 NatRestricted 1 0; L_WTake 0; L_Client NatRestricted (Some 7) 100 (Some 0%nat);
+             L_Install [(7, 9); (8, 10)]; L_WTimeoutCS 0; L_Poll 3 NatUnrestricted 1 0; L_RvOffer 0;
+             L_Client NatUnrestricted (Some 8) 101 (Some 1%nat); L_RvForward 0; L_Answer 1 500; L_AnswerPut 0;
+             L_CTakeAnswer 0; L_CCleanup 0] in
+  exists s0 s, run V1 (init [(7, 9)]) [L_Poll 1 NatUnrestricted 1 0] = Some s0 /\ run V1 s0 ls = Some s /\
+    pm s0 0 = 5%nat /\ cmm s0 0 = 4%nat /\ count_own w_label 0 ls = 5%nat /\ count_own c_label 0 ls = 3%nat /\
+    pm s 0 = 0%nat /\ cmm s 0 = 0%nat /\ quiescent s = false.
+Proof. eexists. eexists. vm_compute. repeat split. Qed.
 
 (* ... and such a run can only stop when nothing is pending any more. *)
 Theorem C04_stops_only_when_quiescent : forall br s,
@@ -39,10 +110,10 @@ Theorem C04_quiescent_clean : forall v br s, reachable v br s -> quiescent s = t
 Proof. exact quiescent_clean. Qed.
 
 (* ... so a fresh client (naming a known bridge) is told there are no proxies. *)
-Theorem C04_fresh_client_refused : forall v br s n fp o ch s',
-  reachable v br s -> quiescent s = true -> lookup fp br <> None ->
-  step v s (L_Client n fp o ch) = Some s' ->
-  ch = None /\ done_clients s' = (next_cid s, n, fp, o, CNoProxies) :: done_clients s.
+Theorem C04_fresh_client_refused : forall v br s n ofp o ch s',
+  reachable v br s -> quiescent s = true -> lookup (fp_of ofp) (bridges s) <> None ->
+  step v s (L_Client n ofp o ch) = Some s' ->
+  ch = None /\ done_clients s' = (next_cid s, n, fp_of ofp, o, CNoProxies) :: done_clients s.
 Proof. exact fresh_client_refused. Qed.
 
 (* The pinned protocol violated the property: after the schedule "poll; its timer fires and the waiter
